@@ -45,9 +45,10 @@ func LawShapes(thorough bool) []*Shape {
 	for _, n := range counts {
 		out = append(out, FieldCountSame(AnnVJL, n))
 	}
-	// generics
+	// generics, and three-field structs mixing private/public/_/blank/embedded fields
 	for _, a := range AllAnnots {
 		out = append(out, Generics(a)...)
+		out = append(out, Mixed(a)...)
 	}
 	out = append(out, UserDefined()...)
 	out = append(out, Names(AnnVJL)...)
